@@ -690,6 +690,16 @@ impl<W: Word, B: AsRef<[W]> + AsMut<[W]>> BitFieldSliceMut<W> for BitFieldVec<W,
         let number_of_words: usize = (self.len() * bit_width).div_ceil(W::BITS);
         let last_word_idx = number_of_words.saturating_sub(1);
 
+        if bit_width == W::BITS {
+            // One value per word: the buffer logic below would shift by
+            // W::BITS.
+            for idx in 0..number_of_words {
+                let word = self.bits.as_mut().get_unchecked_mut(idx);
+                *word = f(*word);
+            }
+            return;
+        }
+
         let mut write_buffer: W = W::ZERO;
         let mut read_buffer: W = *self.bits.as_ref().get_unchecked(0);
 
